@@ -1122,12 +1122,7 @@ namespace awkward {
                                   ascending,
                                   stable);
 
-     if (out.get()->length() == 0) {
-       return out.get()->getitem_nothing();
-     }
-     else {
-       return out;
-     }
+    return out;
   }
 
   const ContentPtr
@@ -1187,12 +1182,7 @@ namespace awkward {
                                ascending,
                                stable);
 
-    if (out.get()->length() == 0) {
-      return out.get()->getitem_nothing();
-    }
-    else {
-      return out;
-    }
+    return out;
   }
 
   const util::Parameters
